@@ -1,6 +1,8 @@
 import QV.Proofs.Arith
 import QV.Proofs.Mul
 import QV.Proofs.Front6
+import QV.Proofs.Front9
+import QV.Proofs.Front10
 import QV.Model.Front
 /-!
 # C01 – Boolean expressions mean what the Python source means
@@ -26,9 +28,14 @@ What is proved here (**partial**):
   whatever `Front.tr` returns has, under every assignment, the value the Lean reference semantics
   `QV.Sem.semW` (`QV/Model/Sem.lean`) gives the expression.
 
-NOT proved: the statement level of `C01_statement` (Assign / Return / the definition list), tuples,
-`Qchar`, subscripts, and `SemW = Sem` (exact python integers) on in-range inputs; those are tied to
-the code by the correspondence and the oracle of `harness/c01.py` only.
+* the **statement level** on the straight-line fragment (`C01_body`), the exact python semantics against
+  the fixed-width one (`semW_eq_sem`, `semW_low_bits`), and their assembly `C01_straightline` (end of
+  this file).
+
+NOT proved: `C01_statement` for all programs – `if` / `for` (unrolled by `ast2ast`, which has no Lean
+model; the guarded assignments `d = b if c else d` it leaves for an `if` read their own target and are
+outside `straightLine`), tuples, `Qchar`, subscripts, and the rejection half; those are tied to the code by the
+correspondence and the oracle of `harness/c01.py` only.
 -/
 namespace QV.C01
 open QV QV.Arith QV.Front
@@ -37,12 +44,12 @@ open QV QV.Arith QV.Front
 program on an assignment of its argument bits: for every return bit either the bit the python function
 returns, or `none` where nothing is claimed – an intermediate left its range and the bit is not a low
 bit determined by wrap-around arithmetic; `none` for the whole row when python raises) and a predicate
-`InSubset` (the documented subset).  **Not proved.**  For the bool / Qint fragment the reference
-semantics now has a Lean definition (`QV.Sem.semProg`, compared with `harness/pysem.py` every run) and
-the expression level is proved (`C01_expr` below).  Missing for this statement: the induction over
-`trStmt` / `trBody` (that `Env.bind` + `decompose_to_symbols` keep `Sem.EnvOK` for the environment
-`runDefs` builds, and the `Return` coercion through `fill_spec` / `crop_spec`), every type other
-than bool / Qint, and the `none` = "nothing claimed" side (`SemW = Sem` under `inRange`). -/
+`InSubset` (the documented subset).  **Not proved in this generality.**  For straight-line programs over
+bool / Qint it is proved with `SemW p ρ := (Sem.semProgX p ρ).map Sem.XVal.claim`
+(`C01_statement_straightline` / `C01_straightline` at the end of this file).  Missing for the rest:
+`if` / `for` never reach `translate` – `ast2ast` unrolls loops and rewrites `if` into guarded assignments
+`d = b if c else d` (they read their own target, which `Sem.straightLine` excludes), and `ast2ast` has
+no Lean model; every type other than bool / Qint; the `InSubset` (rejection) half. -/
 def C01_statement
     (SemW : Prog → (String → Bool) → Option (List (Option Bool)))
     (InSubset : Prog → Prop) : Prop :=
@@ -402,5 +409,152 @@ theorem C01_library_partial (q : Quirks) (ρ : Env) (n : Nat) (l r : List BExp)
     lte_spec q ρ l r hgt, gte_spec q ρ l r hgt⟩
   rw [sub_partial q n l r hsub]
   exact (sub_spec ρ n l r).1
+
+/-! ## from expressions to programs: the straight-line fragment
+
+`Sem.straightLine p` (decidable, `QV/Proofs/Front9.lean`): arguments of type `bool` / `Qint[w]`
+(`w ≠ 1`) with dot-free names other than `_ret`; return type `bool` / `Qint[w]`; every statement an
+assignment `t = e` (`t` dot-free, not `_ret`, `e` in `Sem.inFrag`, `e` does not read `t`), a
+`return e` (`e` in `Sem.inFrag`), or an expression statement.  Augmented assignments and
+self-referencing assignments reach the translator in exactly this form: `ast2ast` rewrites `a += e`
+and `a = f(a)` into `__a = …; a = __a`.  `if` / `for` are unrolled by `ast2ast`, which has no Lean
+model (see `C01_statement`); the guarded assignment `d = b if c else d` it leaves for an `if` reads its
+own target (each bit only its own old bit) and is NOT in the fragment. -/
+
+/-- **C01_body** – the statement level.  If the model of `translate_ast` (`Front.translate`, all listed
+defects repaired) accepts a straight-line program with definition list `defs`, then for every
+assignment `ρ` of the argument bits the Lean reference semantics `SemW` is defined on the program, and
+the sequential evaluation of `defs` (`runDefs`) leaves in the return symbols `_ret` / `_ret.i`
+exactly the bits of the `SemW` value (`return` fills or crops to the declared type).  Proof
+(`QV/Proofs/Front7.lean`, `Front9.lean`): invariant `EnvInv` (every binding is a well-shaped `bool` /
+`Qint` binding whose value in `σ` is what its symbols say under the current assignment) is kept by
+`Env.bind` + `decompose_to_symbols` along the definition list, re-binding of a name included
+(`assign_step`); a translated value does not depend on the symbols of a variable the expression does
+not read (`tr_indep`, from `C01_expr` at a re-based environment), so the definitions of one
+assignment can be evaluated one after the other (`seq_eval`); `Return` through `fill_spec` /
+`crop_spec` (`ret_step`); definitions after the `return` leave the return symbols alone and a second
+`return` is refused (`body_frame`). -/
+theorem C01_body (p : Prog) (consts : List (Bool × Bool)) (hp : Sem.straightLine p = true)
+    (defs : List (String × BExp)) (events : List String)
+    (h : translate Quirks.none consts p = .ok (defs, events)) (ρ : Env) :
+    ∃ sv, Sem.semProg p ρ = some sv ∧ (p.ret.names "_ret").map (runDefs defs ρ) = sv.bits :=
+  Sem.translate_sound p consts hp defs events h ρ
+
+/-- the hypotheses of `C01_body` are satisfiable: an augmented assignment as `ast2ast` leaves it
+(`c = a; __c = c * 3; c = __c; return c - b`, cropped to `Qint[4]`) is straight-line and accepted -/
+example :
+    let p : Prog := ⟨[("a", .qint 2), ("b", .qint 3)], .qint 4,
+      [.assign "c" (.name "a"), .assign "__c" (.bin "mul" (.name "c") (.cint 3)),
+       .assign "c" (.name "__c"), .ret (.bin "sub" (.name "c") (.name "b"))]⟩
+    Sem.straightLine p = true ∧ ∃ defs ev, translate Quirks.none [] p = .ok (defs, ev) := by
+  refine ⟨by decide, ?_⟩
+  exact ⟨_, _, rfl⟩
+
+/-- **semW_eq_sem** – the first half of the property's first sentence, for expressions.  `Sem.sem`
+(`QV/Model/SemX.lean`) is the exact python meaning (unbounded ints, no reduction); `Sem.inRange σ e`
+(decidable) says it is defined and no intermediate value that flowed into the result left the range
+`0 ≤ x < 2^w` of the type the typing rules give it.  On every expression in range, under
+environments that agree (`Sem.EnvAgree`: every variable's fixed-width value agrees with its exact
+value as far as that claims – for arguments both are the decoded bits), whatever `SemW` gives is the
+exact python value. -/
+theorem semW_eq_sem (σX : Sem.XEnv) (σW : Sem.SEnv) (henv : Sem.EnvAgree σX σW) (e : PExp)
+    (hin : Sem.inRange σX e = true) (sv : Sem.SVal) (hw : Sem.semW σW e = some sv) :
+    ∃ v, Sem.sem σX e = some ⟨v, none⟩ ∧
+      ((∃ b, v = .bool b ∧ sv = .bool b) ∨
+       (∃ w x, v = .int w x ∧ sv = .int w x.toNat ∧ 0 ≤ x ∧ x < (2 : Int) ^ w)) := by
+  unfold Sem.inRange at hin
+  split at hin
+  · rename_i v hx
+    refine ⟨v, hx, ?_⟩
+    have ha := Sem.sem_agree σX σW henv e sv _ hw hx
+    cases v with
+    | bool b =>
+      cases sv with
+      | bool b' => exact Or.inl ⟨b, rfl, by rw [ha rfl]⟩
+      | int _ _ => exact ha.elim
+    | int w x =>
+      cases sv with
+      | bool _ => exact ha.elim
+      | int w' y =>
+        obtain ⟨rfl, hy, h1, _⟩ := ha
+        have hxy := h1 rfl
+        refine Or.inr ⟨w', x, rfl, by rw [← hxy]; rfl, by omega, ?_⟩
+        rw [← hxy, ← Sem.cast_pow2]
+        exact Int.ofNat_lt.mpr hy
+  · cases hin
+
+/-- **semW_low_bits** – the second half: the low-bits congruence.  Whenever both semantics give an
+integer, the types agree, the fixed-width value is below `2^w`, and it is congruent to the exact
+python value modulo `2^j` for every `j` within the claim `k` of the exact value (`k = none`: every
+`j`, and then the values are equal; `k = some n`: `j ≤ n`, where `n` is what is left of the width
+after the value passed through `+ - * & | ^ ~ <<`, constants and if-expressions with exact tests –
+each of which is a homomorphism on the low bits, `Sem.intBin_agree`, `Sem.intBitwise_low` – and `0`
+after a comparison, `>>` or `%` read a wrapped value). -/
+theorem semW_low_bits (σX : Sem.XEnv) (σW : Sem.SEnv) (henv : Sem.EnvAgree σX σW) (e : PExp)
+    (w' y w : Nat) (x : Int) (k : Option Nat) (hw : Sem.semW σW e = some (.int w' y))
+    (hx : Sem.sem σX e = some ⟨.int w x, k⟩) :
+    w' = w ∧ y < 2 ^ w ∧ (k = none → (y : Int) = x) ∧
+      ∀ j, (∀ n, k = some n → j ≤ n) → (y : Int) % 2 ^ j = x % 2 ^ j := by
+  have ha := Sem.sem_agree σX σW henv e _ _ hw hx
+  obtain rfl : w' = w := ha.1
+  exact ⟨rfl, ha.2.1, ha.2.2.1, fun j hj => Sem.agree_cong ha hj⟩
+
+/-- the two semantics start from agreeing environments: the arguments decoded from their bits -/
+theorem args_agree (args : List (String × Ty)) (ρ : Env) :
+    Sem.EnvAgree (Sem.argsEnvX args ρ) (Sem.argsEnv args ρ) :=
+  Sem.envAgree_args args ρ
+
+/-- **C01_straightline** – the property at full strength on the straight-line fragment
+(= `C01_body` + `semW_eq_sem` + `semW_low_bits`).  If `translate` accepts a straight-line program
+with definition list `defs`, then for every assignment `ρ` of the argument bits: the fixed-width
+meaning `sv` exists and the return symbols hold exactly its bits; and whenever the exact python
+semantics `Sem` gives the program a value `xv` on the decoded arguments, `sv` agrees with it
+(`Sem.Agree`: equal when `xv` is in range, congruent modulo `2^k` on the `k` low bits wrap-around
+arithmetic determines otherwise), and every return bit that `xv` claims (`XVal.claim`: all bits of
+the python value when in range, the low `k` bits otherwise) is the bit the definitions compute. -/
+theorem C01_straightline (p : Prog) (consts : List (Bool × Bool)) (hp : Sem.straightLine p = true)
+    (defs : List (String × BExp)) (events : List String)
+    (h : translate Quirks.none consts p = .ok (defs, events)) (ρ : Env) :
+    ∃ sv, Sem.semProg p ρ = some sv ∧ (p.ret.names "_ret").map (runDefs defs ρ) = sv.bits ∧
+      ∀ xv, Sem.semProgX p ρ = some xv →
+        Sem.Agree xv sv ∧
+        ∀ (i : Nat) (b : Bool), xv.claim[i]? = some (some b) →
+          ∀ name, (p.ret.names "_ret")[i]? = some name → runDefs defs ρ name = b := by
+  obtain ⟨sv, hs, hbits⟩ := C01_body p consts hp defs events h ρ
+  refine ⟨sv, hs, hbits, fun xv hx => ?_⟩
+  have ha := Sem.semProg_agree p ρ sv xv hs hx
+  refine ⟨ha, fun i b hc name hn => ?_⟩
+  have h1 := Sem.agree_claim ha i b hc
+  rw [← hbits, List.getElem?_map, hn] at h1
+  simpa using h1
+
+/-- `C01_straightline` in the shape of `C01_statement`: with `SemW p ρ :=` the claimed bits of the
+exact semantics, the body of `C01_statement` holds for every straight-line program (its `InSubset`
+conjunct is the hypothesis here) -/
+theorem C01_statement_straightline (p : Prog) (consts : List (Bool × Bool))
+    (hp : Sem.straightLine p = true) :
+    match translate Quirks.none consts p with
+    | .error _ => True
+    | .ok (defs, _) =>
+      ∀ ρ : String → Bool,
+        match (Sem.semProgX p ρ).map Sem.XVal.claim with
+        | none => True
+        | some expected =>
+          ∀ (i : Nat) (b : Bool), expected[i]? = some (some b) →
+            ∀ name, (p.ret.names "_ret")[i]? = some name → runDefs defs ρ name = b := by
+  split
+  · trivial
+  · rename_i defs ev htr
+    intro ρ
+    split
+    · trivial
+    · rename_i expected hexp
+      obtain ⟨sv, _, _, hall⟩ := C01_straightline p consts hp defs ev htr ρ
+      cases hx : Sem.semProgX p ρ with
+      | none => simp [hx] at hexp
+      | some xv =>
+        simp only [hx, Option.map_some, Option.some.injEq] at hexp
+        subst hexp
+        exact (hall xv hx).2
 
 end QV.C01
